@@ -295,8 +295,31 @@ def hostile_debs(chk):
         for binary in [b"", b"\n", b"2", b"2.", b"2\n", b"2.\n", b"\n2.0\n", b"\n\n", b"\r\n", b"2.0", b"2.0\r\n", b"\x00", b"2.0\n\x00"] + \
                 [bytes([c]) for c in b"0123. \t"]:
             bufs.append(argen.render([debpkg.member(b"debian-binary", binary)] + info["ms"][1:]))
+    # control paragraphs in which a field is present only in other spellings of its name (package: / PACKAGE:), with different
+    # values: whatever the loader makes of them, it makes the same of them every time
+    casev = []
+    for cenc in ("", ".gz"):
+        for fld in (b"Package", b"Version", b"Architecture", b"Maintainer"):
+            base, info = debpkg.build(chk, rng, cenc, ".gz")
+            ct = info["ctext"]
+            line = [l for l in ct.split(b"\n") if l.startswith(fld + b":")]
+            if not line:
+                continue
+            val = line[0].split(b": ", 1)[1]
+            ct2 = ct.replace(line[0] + b"\n", fld.lower() + b": " + val + b"\n" + fld.upper() + b": " + (b"2.0-2" if fld == b"Version" else b"other") + b"\n")
+            pk, _ = debpkg.build(chk, rng, cenc, ".gz", ctl_files=[(b"./control", ct2), (b"./md5sums", b"x\n")])
+            casev.append(pk)
+    bufs += casev * 6
     cases = [("debload", [b]) for b in bufs]
     first = chk.run_impl(cases)
+    outcomes = {}
+    for c, r in zip(cases, first):
+        if c[1][0] in casev:
+            outcomes.setdefault(c[1][0], set()).add(r)
+    for b, rs in outcomes.items():
+        if len(rs) > 1:
+            chk.violate({"kind": "property", "case": lib.show_case(("debload", [b"<%d bytes>" % len(b)])), "outcomes": sorted(r[:200] for r in rs),
+                         "explanation": "loading the same bytes repeatedly gives different outcomes (a control paragraph with several spellings of one field name)"})
     tables, _ = oracle_args(chk, bufs)
     mcases = [("debload", [b] + t) for b, t in zip(bufs, tables)]
     model = chk.run_model(mcases)
